@@ -185,8 +185,13 @@ inline int supervise(int argc, char** argv)
     auto* done = static_cast<volatile std::size_t*>(
         mmap(nullptr, sizeof(std::size_t), PROT_READ | PROT_WRITE, MAP_SHARED | MAP_ANONYMOUS, -1, 0));
     *done = 0;
+    // watchdog: a case that does not return within VERIF_CASE_TIMEOUT seconds (default 60; a changed library may
+    // loop forever) is killed by SIGALRM in the child and reported as "crash 14" like any other crash
+    unsigned case_timeout = 60;
+    if (char const* e = std::getenv("VERIF_CASE_TIMEOUT")) { case_timeout = static_cast<unsigned>(std::atoi(e)); }
     auto run_from = [&](std::size_t start) {
         for (std::size_t k = start; k < cases.size(); ++k) {
+            if (!nofork && case_timeout != 0) { alarm(case_timeout); }
             Toks in(cases[k]);
             Out impl;
             Out ref;
@@ -205,6 +210,7 @@ inline int supervise(int argc, char** argv)
             if (!nofork) { std::fflush(stdout); }
             *done = k + 1;
         }
+        if (!nofork) { alarm(0); }
         std::fflush(stdout);
     };
     if (nofork) {
